@@ -1,9 +1,199 @@
-(* C06 -- refactorings PRQL defines as equivalent do not change results.  (statements only) *)
+(* C06 -- refactorings PRQL defines as equivalent do not change results.
+   Statements only; proofs in Proofs/RewriteProofs.v and Proofs/SubstProofs.v.  Spec layer: every rewrite is an
+   equation of the reference semantics Model/Rel.v (shared with C01), for ALL relations, rows and expressions.
+   The compiler layer ("base and rewritten program both compile to SQL that means what Rel.v says") is validated
+   per pair by execution in vplib/props/c06.py, not proved.
+   `ev` is Rel.eval with fuel 50; statements about `ev` carry the depth bound under which the fuel is not
+   exhausted, statements about `evalT` (the same evaluator by structural recursion, Model/Subst.v) need none. *)
 From Coq Require Import List ZArith QArith NArith Bool.
-From PV Require Import Model.Rel.
+From PV Require Import Model.Rel Model.Subst Model.Rewrite Proofs.SubstProofs Proofs.RewriteProofs.
 Import ListNotations.
+Local Open Scope nat_scope.
 
+(* ---- the two evaluators agree below the fuel ---- *)
+Theorem c06_eval_fuel : forall f e r, depth e <= f -> eval f r e = evalT r e.
+Proof. exact eval_evalT. Qed.
+Print Assumptions c06_eval_fuel.
+
+(* ---- (c) filter (a && b)  ==  filter a | filter b   (three-valued: a row passes iff the conjunction is TRUE) ---- *)
+Theorem c06_filter_split : forall a b l, depth a < 50 -> depth b < 50 ->
+  apply (TFilter (EBin And a b)) l = apply (TFilter b) (apply (TFilter a) l).
+Proof. exact filter_split. Qed.
+Print Assumptions c06_filter_split.
+
+Theorem c06_filter_split_rowwise : forall a b r,
+  is_true (evalT r (EBin And a b)) = is_true (evalT r a) && is_true (evalT r b).
+Proof. exact filter_split_T. Qed.
+Print Assumptions c06_filter_split_rowwise.
+
+(* ---- (d) transforms that are identities on the frame ---- *)
+Theorem c06_id_derive_empty : forall l, apply (TDerive []) l = l.
+Proof. exact derive_empty_id. Qed.
+Print Assumptions c06_id_derive_empty.
+
+Theorem c06_id_filter_true : forall l, apply (TFilter (ELit (VInt 1))) l = l.
+Proof. exact filter_true_id. Qed.
+Print Assumptions c06_id_filter_true.
+
+Theorem c06_id_take_open : forall l, apply (TTake (Some 1%Z) None) l = l /\ apply (TTake None None) l = l.
+Proof. exact take_open_id. Qed.
+Print Assumptions c06_id_take_open.
+
+Theorem c06_id_append_empty : forall l, apply (TAppend []) l = l.
+Proof. exact append_empty_id. Qed.
+Print Assumptions c06_id_append_empty.
+
+(* a sort directly in front of another sort is overridden, provided the second sort's keys order the rows without
+   ties (ord_ok: total, transitive, and only identical rows compare equal both ways -- decidable, Model/Rewrite.v).
+   Without that proviso the statement is false: Rel's sort is stable, so ties of k2 would keep k1's order. *)
+Theorem c06_id_sort_overridden : forall k1 k2 l, ord_ok (keys_le k2) l = true ->
+  apply (TSort k2) (apply (TSort k1) l) = apply (TSort k2) l.
+Proof. exact sort_overridden. Qed.
+Print Assumptions c06_id_sort_overridden.
+
+(* `select` of all columns of the frame, in order (distinct names): the rows are unchanged up to their relation
+   qualifiers, which `select` drops (unq); values and column names are exactly preserved *)
+Theorem c06_id_select_all : forall ns l, NoDup ns -> Forall (fun r => map col_name r = map Some ns) l ->
+  apply (TSelect (all_cols ns)) l = map unq l.
+Proof. exact select_all_id. Qed.
+Print Assumptions c06_id_select_all.
+
+Theorem c06_id_select_all_observable : forall ns l, NoDup ns -> Forall (fun r => map col_name r = map Some ns) l ->
+  values (apply (TSelect (all_cols ns)) l) = values l /\ names (apply (TSelect (all_cols ns)) l) = names l.
+Proof. exact select_all_values. Qed.
+Print Assumptions c06_id_select_all_observable.
+
+(* ---- (b) user functions: beta-reduction = evaluation of the body in the row extended by the parameters ---- *)
+Theorem c06_subst_sound : forall s e r, evalT r (subst s e) = evalT (bind r (eval_binding r s)) e.
+Proof. exact subst_sound. Qed.
+Print Assumptions c06_subst_sound.
+
+Theorem c06_beta_sound : forall f c s r, bindings f c = Some s ->
+  beta f c = Some (subst s (f_body f)) /\
+  evalT r (subst s (f_body f)) = evalT (bind r (eval_binding r s)) (f_body f).
+Proof. exact beta_sound. Qed.
+Print Assumptions c06_beta_sound.
+
+Theorem c06_beta_sound_ev : forall s body r,
+  depth (subst s body) <= 50 -> depth body <= 50 -> Forall (fun b : name * expr => depth (snd b) <= 50) s ->
+  ev r (subst s body) = ev (bind r (map (fun b : name * expr => (fst b, ev r (snd b))) s)) body.
+Proof. exact beta_sound_ev. Qed.
+Print Assumptions c06_beta_sound_ev.
+
+(* positional:  let f = p1 .. pn -> body ;  (f a1 .. an) *)
+Theorem c06_beta_positional : forall ps body args r, length args = length ps ->
+  exists e', beta {| f_params := pos_params ps; f_body := body |} {| c_named := []; c_pos := args |} = Some e' /\
+             evalT r e' = evalT (bind r (combine ps (map (evalT r) args))) body.
+Proof. exact beta_positional. Qed.
+Print Assumptions c06_beta_positional.
+
+(* named with default:  let f = nd:d p1 .. pn -> body ;  (f a1 .. an): nd is d's value IN THE CALLER'S ROW *)
+Theorem c06_beta_default_omitted : forall nd d ps body args r, length args = length ps ->
+  exists e', beta {| f_params := named_first nd d ps; f_body := body |} {| c_named := []; c_pos := args |} = Some e' /\
+             evalT r e' = evalT (bind r ((nd, evalT r d) :: combine ps (map (evalT r) args))) body.
+Proof. exact beta_default_omitted. Qed.
+Print Assumptions c06_beta_default_omitted.
+
+(* (f nd:x a1 .. an): the passed value replaces the default *)
+Theorem c06_beta_named_passed : forall nd d x ps body args r, length args = length ps ->
+  exists e', beta {| f_params := named_first nd d ps; f_body := body |} {| c_named := [(nd, x)]; c_pos := args |} = Some e' /\
+             evalT r e' = evalT (bind r ((nd, evalT r x) :: combine ps (map (evalT r) args))) body.
+Proof. exact beta_named_passed. Qed.
+Print Assumptions c06_beta_named_passed.
+
+(* piped:  (x | f a..)  ==  (f a.. x) *)
+Theorem c06_pipe_is_last_argument : forall f c x,
+  beta f (pipe x c) = beta f {| c_named := c_named c; c_pos := c_pos c ++ [x] |}.
+Proof. exact pipe_is_last_argument. Qed.
+Print Assumptions c06_pipe_is_last_argument.
+
+Theorem c06_beta_piped : forall ps p body args x r, length args = length ps ->
+  exists e', beta {| f_params := pos_params (ps ++ [p]); f_body := body |} (pipe x {| c_named := []; c_pos := args |}) = Some e' /\
+             evalT r e' = evalT (bind r (combine ps (map (evalT r) args) ++ [(p, evalT r x)])) body.
+Proof. exact beta_piped. Qed.
+Print Assumptions c06_beta_piped.
+
+(* parameters that do not occur in an expression leave it alone: with fresh parameter names, abstraction followed
+   by beta-reduction gives the original expression back and captures no column *)
+Theorem c06_subst_fresh : forall s e, (forall p, In p (map fst s) -> occurs p e = false) -> subst s e = e.
+Proof. exact subst_fresh. Qed.
+Print Assumptions c06_subst_fresh.
+
+(* ---- (a) let / into ---- *)
 Theorem c06_let_prefix_sound : forall (base : rel) (p rest : list transform),
   run base (p ++ rest) = run (run base p) rest.
-Proof. intros. unfold run. apply fold_left_app. Qed.
+Proof. exact let_prefix_sound. Qed.
 Print Assumptions c06_let_prefix_sound.
+
+(* any number of references to the let-table (none, one, two: self-join / append) may be inlined *)
+Theorem c06_let_inline_sound : forall env x d e, tsem (tlet env x d) e = tsem env (tsubst x d e).
+Proof. exact let_inline_sound. Qed.
+Print Assumptions c06_let_inline_sound.
+
+Theorem c06_let_then_from : forall env x b p rest,
+  tsem (tlet env x (pipeline (TBase b) p)) (pipeline (TVar x) rest) = run b (p ++ rest).
+Proof. exact let_then_from. Qed.
+Print Assumptions c06_let_then_from.
+
+Theorem c06_let_two_refs_append : forall env x d rest,
+  tsem (tlet env x d) (pipeline (TApply (TVar x) (SAppend (TVar x))) rest) = run (tsem env d ++ tsem env d) rest.
+Proof. exact let_two_refs_append. Qed.
+Print Assumptions c06_let_two_refs_append.
+
+Theorem c06_let_two_refs_join : forall env x d s al uc on rest,
+  tsem (tlet env x d) (pipeline (TApply (TVar x) (SJoin s al uc (TVar x) on)) rest)
+  = tsem env (pipeline (TApply d (SJoin s al uc d on)) rest).
+Proof. exact let_two_refs_join. Qed.
+Print Assumptions c06_let_two_refs_join.
+
+(* ---- (e) modules ---- *)
+Theorem c06_module_get_insert : forall A path (m m' : module A) n d, minsert m path n d = Some m' -> mget m' path n = Some d.
+Proof. exact mget_minsert_same. Qed.
+Print Assumptions c06_module_get_insert.
+
+Theorem c06_module_path_irrelevant : forall A (m m1 m2 : module A) path n d,
+  minsert m [] n d = Some m1 -> minsert m path n d = Some m2 ->
+  mget m2 path n = mget m1 [] n /\ mget m1 [] n = Some d.
+Proof. exact module_path_irrelevant. Qed.
+Print Assumptions c06_module_path_irrelevant.
+
+(* `m.name` is not a same-named top-level declaration, and putting `name` into m leaves the top level alone *)
+Theorem c06_module_other_names_untouched : forall A (m m' : module A) p rest n d q path' n',
+  minsert m (p :: rest) n d = Some m' -> q <> p ->
+  mget m' (q :: path') n' = mget m (q :: path') n' /\ mget m' [] q = mget m [] q.
+Proof. exact mget_minsert_other_top. Qed.
+Print Assumptions c06_module_other_names_untouched.
+
+(* ---- the hypotheses are satisfiable / the statements are not vacuous ---- *)
+Definition ex_row (i a : Z) : row := [(Some 7%N, Some 1%N, VInt i); (Some 7%N, Some 2%N, VInt a)].
+Definition ex_rel : rel := [ex_row 2 5; ex_row 1 5; ex_row 3 0].
+Example c06_ex_ord_ok : ord_ok (keys_le [(false, ECol None 2%N); (true, ECol None 1%N)]) ex_rel = true.
+Proof. vm_compute. reflexivity. Qed.
+Example c06_ex_ord_ties : ord_ok (keys_le [(false, ECol None 2%N)]) ex_rel = false.      (* a = 5 twice: a tie *)
+Proof. vm_compute. reflexivity. Qed.
+Example c06_ex_sort_not_overridden_with_ties :
+  apply (TSort [(false, ECol None 2%N)]) (apply (TSort [(false, ECol None 1%N)]) ex_rel) <> apply (TSort [(false, ECol None 2%N)]) ex_rel.
+Proof. vm_compute. discriminate. Qed.
+Example c06_ex_three_valued : (* NULL && false is false, NULL && true is unknown: neither row passes, in one filter or in two *)
+  let l := [[(None, Some 1%N, VNull); (None, Some 2%N, VInt 0)]; [(None, Some 1%N, VNull); (None, Some 2%N, VInt 1)]] in
+  apply (TFilter (EBin And (ECol None 1%N) (ECol None 2%N))) l = [] /\
+  apply (TFilter (ECol None 2%N)) (apply (TFilter (ECol None 1%N)) l) = [].
+Proof. vm_compute. split; reflexivity. Qed.
+Example c06_ex_select_all : NoDup [1%N; 2%N] /\ Forall (fun r => map col_name r = map Some [1%N; 2%N]) ex_rel.
+Proof. split; [repeat constructor; cbn; intuition discriminate | repeat constructor]. Qed.
+Example c06_ex_beta : (* let f = low:0 high x -> (x - low) / (high - low) ; (sat | f 1600)  with sat = 800 *)
+  let f := {| f_params := [(10%N, Some (ELit (VInt 0))); (11%N, None); (12%N, None)];
+              f_body := EBin DivF (EBin Sub (ECol None 12%N) (ECol None 10%N)) (EBin Sub (ECol None 11%N) (ECol None 10%N)) |} in
+  match beta f (pipe (ECol None 1%N) {| c_named := []; c_pos := [ELit (VInt 1600)] |}) with
+  | Some e => show_val (evalT [(None, Some 1%N, VInt 800)] e) = [1%Z; 1%Z; 2%Z]
+  | None => False end.
+Proof. vm_compute. reflexivity. Qed.
+Example c06_ex_param_shadows_column : (* a parameter named like a column shadows it; the qualified column is untouched *)
+  evalT [(Some 7%N, Some 1%N, VInt 5)] (subst [(1%N, ELit (VInt 9))] (EBin Add (ECol None 1%N) (ECol (Some 7%N) 1%N))) = VInt 14.
+Proof. vm_compute. reflexivity. Qed.
+Example c06_ex_module :
+  let m : module nat := [(5%N, DVal 1)] in
+  match minsert m [8%N; 9%N] 5%N (DVal 2) with
+  | Some m' => mget m' [8%N; 9%N] 5%N = Some (DVal 2) /\ mget m' [] 5%N = Some (DVal 1)
+  | None => False end.
+Proof. vm_compute. split; reflexivity. Qed.
